@@ -343,6 +343,14 @@ func genMath(c *h.Ctx) {
 		fn := c13fn1[c.Rng.Intn(len(c13fn1))]
 		add1(fn, randV(), "m1:random")
 	}
+	// the two amd64 assembly defects: Exp near the overflow threshold, Log (and Pow) of subnormals
+	for i := 0; i < c.N(300, 20000); i++ {
+		add1("exp", "f:"+h.F64Hex(709.3+0.6*float64(c.Rng.Intn(1<<30))/(1<<30)), "m1:exp-threshold")
+		sub := math.Float64frombits(c.Rng.U64() >> uint(12+c.Rng.Intn(52)))
+		add1("log", "f:"+h.F64Hex(sub), "m1:log-subnormal")
+		add2("pow", "f:"+h.F64Hex(sub), "f:"+h.F64Hex(float64(c.Rng.Intn(33)-16)/8), "m2:pow-subnormal")
+		add2("atan2", "f:"+h.F64Hex(-sub), "f:"+h.F64Hex(-float64(1+c.Rng.Intn(1000))), "m2:atan2-underflow")
+	}
 	// round: dense around ties and the 2^52 / 2^53 thresholds
 	for i := 0; i < c.N(3000, 100000); i++ {
 		k := float64(int64(c.Rng.U64()>>uint(11+c.Rng.Intn(53)))) + []float64{0, 0.5, 0.25, 0.75, 0.49999999999999994}[c.Rng.Intn(5)]
